@@ -70,6 +70,30 @@ end
 /-- `zed.CompareTypes` -/
 def cmpTy (a b : Ty) : Ordering := cmpCombine a b (cmpS a b.under)
 
+/-! ### the guard under which `cmpTy` is a total order
+
+  `nnn t`: no named type of `t` (at any depth) directly wraps another named type.  For such
+  types two named types with the same underlying type and the same outermost name are the
+  same type, which is what `CompareTypes` silently assumes. -/
+mutual
+def Ty.nnn : Ty → Bool
+  | .prim _ => true
+  | .record fs => fs.nnn
+  | .array t => t.nnn
+  | .set t => t.nnn
+  | .map k v => k.nnn && v.nnn
+  | .union ts => ts.nnn
+  | .enum _ => true
+  | .error t => t.nnn
+  | .named _ t => !t.isNamed && t.nnn
+def Fields.nnn : Fields → Bool
+  | .nil => true
+  | .cons _ t r => t.nnn && r.nnn
+def Tys.nnn : Tys → Bool
+  | .nil => true
+  | .cons t r => t.nnn && r.nnn
+end
+
 def Ordering.toInt : Ordering → Int
   | .lt => -1
   | .eq => 0
